@@ -4,10 +4,10 @@ package main
 
 import (
 	"encoding/json"
+	"flag"
 	"fmt"
 	"os"
 	"runtime/debug"
-	"runtime/pprof"
 	"time"
 
 	sdk "github.com/cosmos/cosmos-sdk/types"
@@ -117,9 +117,9 @@ func planFor(tier string) []run {
 		{cfgCheap, "S3", 5, "base"},
 		{cfgCheap, "S4", 3, "base"},
 		{cfgCheap, "S5", 4, "base"},
-		{cfgCheap, "S1", 6, "narrow"},
-		{cfgCheap, "S2", 6, "narrow"},
-		{cfgCheap, "S3", 6, "narrow"},
+		{cfgCheap, "S1", 8, "narrow"},
+		{cfgCheap, "S2", 8, "narrow"},
+		{cfgCheap, "S3", 8, "narrow"},
 		{cfgPrecious, "init", 4, "r1only"},
 		{cfgPrecious, "S0", 3, "r1only"},
 	}
@@ -219,13 +219,9 @@ func runReplay(f *core.Flags, r *core.Result) {
 }
 
 func main() {
+	storesFlag := flag.String("stores", "", "development aid: 'all' hashes every KV store instead of the scenario's list")
 	f := core.ParseFlags()
 	r := core.NewResult(f.Prop)
-	if pf := os.Getenv("VERIF_PPROF"); pf != "" {
-		fh, _ := os.Create(pf)
-		pprof.StartCPUProfile(fh)
-		defer pprof.StopCPUProfile()
-	}
 	debug.SetGCPercent(400)
 	if f.Prop != "C09" {
 		fmt.Fprintln(os.Stderr, "gauges09: unknown property", f.Prop)
@@ -237,6 +233,11 @@ func main() {
 		return
 	}
 	plan := planFor(f.Tier)
+	hashed := stores
+	if *storesFlag == "all" {
+		hashed = nil
+		r.Extra["stores_hashed"] = "all"
+	}
 	allSeen := core.NewSeen()
 	worlds := map[string]*World{}
 	completed := map[string]interface{}{}
@@ -256,7 +257,7 @@ func main() {
 		}
 		names = append(names, rn.name())
 		sc := &core.Scenario[Op, *Ledger]{
-			App: w.App, Stores: stores, Config: rn.Cfg,
+			App: w.App, Stores: hashed, Config: rn.Cfg,
 			Enabled:   w.Enabled(al),
 			Apply:     w.Apply,
 			Check:     w.Check,
